@@ -152,7 +152,7 @@ type cluster struct {
 }
 
 func (r *runner) newCluster(l layoutSpec, iso *isoPlacement) *cluster {
-	cl := &cluster{rec: &planRecorder{}, iso: iso, leaf: map[string]bool{}}
+	cl := &cluster{rec: &planRecorder{cap: l.ComputeCap}, iso: iso, leaf: map[string]bool{}}
 	cl.c = node.NewCluster(r.n, l.nodeLayout())
 	cl.c.Grace = 250 * time.Millisecond
 	cl.c.Watchdog = 90 * time.Second
@@ -283,6 +283,9 @@ type outcome struct {
 	Diffs     []string `json:"diffs,omitempty"`
 	Got       string   `json:"got,omitempty"`
 	LeafErrs  []string `json:"leaf_errors,omitempty"`
+	// RootPlan is the plan the root sent; LeafRequests the number of requests every leaf (layout order) got in this run
+	RootPlan     string `json:"root_plan,omitempty"`
+	LeafRequests []int  `json:"leaf_requests"`
 	// LeafDigests: per leaf response (sender>receiver) an order independent digest of the groups, fields and bytes it
 	// carried: equal digests under two delivery orders with different results put the difference at the merging node
 	LeafDigests map[string]string `json:"leaf_digests,omitempty"`
@@ -328,10 +331,57 @@ func (r *runner) runOne(cl *cluster, l layoutSpec, q *query, perm []int, strict 
 	cl.c.SetScheduler(nil)
 	r.res.Evals++
 	out.Delivered = sched.delivered
-	shape, _, receiveOnly := planShape(cl.rec.rootPlan(), cl.leaf)
+	rootPlan := cl.rec.rootPlan()
+	shape, active, receiveOnly := planShape(rootPlan, cl.leaf)
 	out.Shape = shape
 	r.res.count("runs.plan."+shape, 1)
 	msgs := sched.messages()
+	// who asked the leaves: with compute targets the one executing target asks every leaf (once), the others only receive
+	compute := len(active) + len(receiveOnly)
+	asked := map[string]int{}
+	for _, m := range msgs {
+		if m.Kind == node.Request && cl.leaf[m.To] {
+			asked[m.To]++
+		}
+	}
+	leavesAsked, leavesAskedOnce := 0, 0
+	for _, id := range cl.ids {
+		out.LeafRequests = append(out.LeafRequests, asked[id])
+		if asked[id] > 0 {
+			leavesAsked++
+		}
+		if asked[id] == 1 {
+			leavesAskedOnce++
+		}
+	}
+	if compute > 0 {
+		out.RootPlan = planString(rootPlan)
+		switch {
+		case leavesAskedOnce == len(cl.ids):
+			r.res.count("runs.compute_plan.executing_target_asked_every_leaf_exactly_once", 1)
+		case leavesAsked == 0:
+			r.res.count("runs.compute_plan.no_leaf_was_asked", 1)
+		default:
+			r.res.count("runs.compute_plan.some_leaf_not_asked_or_asked_more_than_once", 1)
+		}
+		if l.Intermediates > compute {
+			r.res.count("runs.compute_plan.more_live_brokers_than_compute_targets", 1)
+			r.res.count(fmt.Sprintf("runs.compute_plan.%d_targets_of_%d_live_brokers", compute, l.Intermediates), 1)
+			if leavesAskedOnce == len(cl.ids) {
+				r.res.count("runs.compute_plan.more_live_brokers_than_compute_targets.every_leaf_asked_exactly_once", 1)
+			}
+		}
+		switch len(active) {
+		case 1:
+			r.res.count("runs.compute_plan.exactly_one_executing_target", 1)
+		case 0:
+			r.res.count("runs.compute_plan.no_executing_target", 1)
+		default:
+			r.res.count("runs.compute_plan.several_executing_targets", 1)
+		}
+	} else if shape == "direct" && leavesAskedOnce == len(cl.ids) {
+		r.res.count("runs.direct_plan.root_asked_every_leaf_exactly_once", 1)
+	}
 	leafErr := map[string]string{}
 	out.LeafDigests = map[string]string{}
 	for _, m := range msgs {
@@ -378,7 +428,23 @@ func (r *runner) runOne(cl *cluster, l layoutSpec, q *query, perm []int, strict 
 			out.Class += "/" + lk
 		}
 		out.Problem = fmt.Sprintf("the root never completes: transport quiescent (held=%d), root parked in waitResponse; receive-only targets %v", res.Held, receiveOnly)
-		if len(receiveOnly) > 0 {
+		// a plan whose executing target did not reach the leaves is a different matter than groups dropped by a receive-only
+		// target: nobody computes anything, whatever the statement and the data
+		switch {
+		case compute > 0 && len(active) == 0:
+			out.Class = "C12/never-answers/no-executing-compute-target/" + lk
+			out.Problem = fmt.Sprintf("the root never completes: every one of the %d compute targets of the root's plan %s is receive-only (%d live brokers), no target runs the statement; the leaves got %v requests; transport quiescent (held=%d), root parked in waitResponse",
+				compute, out.RootPlan, l.Intermediates, out.LeafRequests, res.Held)
+		case compute > 0 && leavesAsked == 0:
+			out.Class = "C12/never-answers/" + shape + "/no-leaf-was-asked/" + lk
+			out.Problem = fmt.Sprintf("the root never completes: the plan %s has the executing target %v but the leaves got %v requests; transport quiescent (held=%d), root parked in waitResponse",
+				out.RootPlan, active, out.LeafRequests, res.Held)
+		case compute > 0 && leavesAsked < len(cl.ids):
+			out.Class = "C12/never-answers/" + shape + "/some-leaves-were-not-asked/" + lk
+			out.Problem = fmt.Sprintf("the root never completes: the plan %s has the executing target %v but the leaves got %v requests; transport quiescent (held=%d), root parked in waitResponse",
+				out.RootPlan, active, out.LeafRequests, res.Held)
+		}
+		if len(receiveOnly) > 0 && leavesAsked > 0 {
 			r.checkSplit(l, q, cl, msgs, receiveOnly)
 		}
 		if res.Held > 0 {
@@ -1092,6 +1158,13 @@ func (r *runner) runLayout(l layoutSpec, iso *isoPlacement) {
 	defer func() { cl.close() }()
 	r.res.count("layouts."+l.kind(), 1)
 	stuckBudget := 2
+	if l.MaxQueries > 0 && l.computeTargets() > 1 {
+		stuckBudget = l.MaxQueries
+	}
+	// ct: compute targets of the root's plan. With more than one, no statement is answered on the unchanged tree (open
+	// finding): such layouts only get a few runs, which observe the plan, who asked the leaves and the leaf -> target split.
+	ct := l.computeTargets()
+	ran, stuckRuns := 0, 0
 	for _, q := range r.queries {
 		base := r.base[q.ID]
 		if base == nil || base.Skip != "" {
@@ -1100,10 +1173,25 @@ func (r *runner) runLayout(l layoutSpec, iso *isoPlacement) {
 		if l.Intermediates > 0 && !q.grouped() {
 			continue // the root asks for one node: the plan is the direct one, already covered without intermediates
 		}
+		if ct <= 1 && l.MaxQueries > 0 && ran >= l.MaxQueries {
+			break
+		}
+		if ct <= 1 && l.ComputeCap > 0 && stuckRuns >= 3 {
+			break // an additional layout that keeps not answering has said what it has to say
+		}
+		ran++
 		holdings := r.leafHoldings(l, q)
 		k := len(l.Leaves)
 		perms, exhaustive := r.permsFor(k)
-		if l.Intermediates > 1 {
+		if l.MaxPerms > 0 && len(perms) > l.MaxPerms {
+			// the first, the last (reverse order for the exhaustive list) and seeded picks in between
+			sel := [][]int{perms[0], perms[len(perms)-1]}
+			for len(sel) < l.MaxPerms {
+				sel = append(sel, perms[1+r.rnd.Intn(len(perms)-2)])
+			}
+			perms = sel[:l.MaxPerms]
+		}
+		if ct > 1 {
 			if len(l.Leaves) < 2 || stuckBudget == 0 {
 				continue
 			}
@@ -1114,7 +1202,7 @@ func (r *runner) runLayout(l layoutSpec, iso *isoPlacement) {
 		bad := 0
 		for pi, perm := range perms {
 			strict := exhaustive
-			if !exhaustive && l.Intermediates <= 1 {
+			if !exhaustive && ct <= 1 {
 				cl.setDelays(rand.New(rand.NewSource(r.seed*131 + int64(r.ds.Index)*17 + int64(q.ID)*7 + int64(pi))))
 			}
 			o := r.runOne(cl, l, q, perm, strict)
@@ -1171,8 +1259,11 @@ func (r *runner) runLayout(l layoutSpec, iso *isoPlacement) {
 					}
 				}
 			}
-			if !exhaustive && l.Intermediates <= 1 {
+			if !exhaustive && ct <= 1 {
 				cl.clearDelays()
+			}
+			if o.Stuck {
+				stuckRuns++
 			}
 			outs = append(outs, o)
 			r.res.count("runs", 1)
@@ -1227,7 +1318,7 @@ func (r *runner) runLayout(l layoutSpec, iso *isoPlacement) {
 				break
 			}
 		}
-		if good != nil && l.Intermediates <= 1 {
+		if good != nil && ct <= 1 {
 			for _, o := range outs {
 				if o.TimedOut || o.Stuck {
 					continue
@@ -1576,6 +1667,58 @@ func runCase(idx, shards int, dir, tier string, seed, base int64, baseFile strin
 	if shards == 2 && only == "" {
 		r.runFastTransport(layoutSpec{Name: "fast-transport-one-leaf", Leaves: [][]models.ShardID{{0, 1}}})
 		r.runFastTransport(layoutSpec{Name: "fast-transport-two-leaves", Leaves: [][]models.ShardID{{0}, {1}}})
+	}
+	// more live brokers than compute targets: flow.BuildPhysicalPlan leaves live nodes out of the plan. One target picked
+	// among 3 / 7 live brokers (what coordinator/root's Choose(database, 1) gets from a broker cluster) answers on the
+	// unchanged tree and must equal the reference; 5 targets of 6 / 8 live brokers (group by on a broker cluster of that
+	// size) never answer there (open finding), these runs observe the plan and that the executing target asked every leaf.
+	// They use a PRNG of their own: the case lists of the layouts above and below stay what they were.
+	{
+		byName := map[string]*layoutSpec{}
+		for i := range parts {
+			byName[parts[i].Name] = &parts[i]
+		}
+		var extra []layoutSpec
+		add := func(name string, inter, limit, maxQueries, maxPerms int) {
+			p := byName[name]
+			if p == nil || len(p.Leaves) < 2 {
+				return
+			}
+			l := *p
+			l.Intermediates, l.ComputeCap, l.MaxQueries, l.MaxPerms = inter, limit, maxQueries, maxPerms
+			extra = append(extra, l)
+		}
+		nq := 5
+		if tier == "thorough" {
+			nq = 12
+		}
+		add("split-in-two", 3, 1, nq, 0)
+		if byName["three-leaves"] != nil {
+			add("three-leaves", 7, 1, nq, 3)
+		} else {
+			add("split-in-two", 7, 1, nq, 0)
+		}
+		// (a run that never answers costs three grace periods: one such layout per child, alternating)
+		switch {
+		case (idx+shards/2)%2 == 0:
+			add("split-in-two", 6, 0, 1, 0)
+		case byName["one-shard-per-leaf"] != nil:
+			add("one-shard-per-leaf", 8, 0, 1, 0)
+		default:
+			add("split-in-two", 8, 0, 1, 0)
+		}
+		saved := r.rnd
+		r.rnd = rand.New(rand.NewSource(seed*7919 + int64(idx)*53 + int64(shards)*3 + 1))
+		if os.Getenv("C12_NO_EXTRA") != "" { // debugging / timing: without the additional layouts
+			extra = nil
+		}
+		for _, l := range extra {
+			if only != "" && !strings.Contains(l.String(), only) {
+				continue
+			}
+			r.runLayout(l, nil)
+		}
+		r.rnd = saved
 	}
 	// isolated metadata: every leaf is a database of its own
 	var isoParts []layoutSpec
